@@ -30,7 +30,6 @@ ASSUMPTIONS = [
     "finite log2, so that reading them (C08's subject) is the identity; the adapter checks that on every case",
     "vcf: the table has a probes column of non-negative integers (str(probes).isdigit()); tables without it or with "
     "negative counts yield no record at all -- run as a malformed stream, model mirrors it, spec not applied",
-    "jtv/cdt: sample IDs are not one of the table's own column names chromosome/start/end/gene/label",
 ]
 TRUSTED_EXTRA = ["pandas boolean-mask selection, Series.replace, concat, itertuples, to_csv as modelled in Model/Export.lean",
                  "harness parsing of the VCF / BED / SEG / TSV text into fields (split on tab, ';', '=', ':')",
@@ -190,7 +189,7 @@ def _tablecase(rng, via=None, kind=None):
     k = rng.randint(1, 5)
     style = rng.choice(["chr", "plain"])
     base = _bins(rng, rng.randint(1, 14), style, via)
-    kind = kind or rng.choice(["equal", "equal", "equal", "mismatch", "mismatch", "dupid", "both"])
+    kind = kind or rng.choice(["equal", "equal", "equal", "mismatch", "mismatch", "dupid", "both", "reserved"])
     if k == 1 and kind != "reserved":
         kind = "equal"
     ids = [f"s{j}" for j in range(k)]
@@ -281,6 +280,20 @@ def corpus():
                     "female": female, "par": par, "has_cn": True, "has_probes": True, "seg_id": "S"}
             out.append({"op": "export_bed", "tag": "corpus-par", "in": dict(base, label=None, show="variant")})
             out.append({"op": "export_vcf", "tag": "corpus-par", "in": dict(base, sample_id="T")})
+    # finding U: a neutral PAR1-X segment against a male reference (diploid-PAR genome) has 2 copies, not 1
+    p = K.PAR["grch38"]["PAR1X"]
+    rows = [["chr1", 0, 1000, "A", 0.0, 9, 0], ["chrX", p[0], p[1], "B", 0.0, 9, 0], ["chrX", p[1] + 10, p[1] + 500, "B", 0.0, 9, 0]]
+    for show in ("variant", "all"):
+        out.append({"op": "export_bed", "tag": "corpus-U",
+                    "in": {"rows": [_enc_seg(r) for r in rows], "log2_f": [r[4] for r in rows], "ploidy": 2, "hapX": True,
+                           "female": False, "par": "grch38", "has_cn": False, "has_probes": True, "seg_id": "S",
+                           "label": None, "show": show}})
+    # finding V: a sample whose ID is one of merge_samples' own column names
+    bins = [["chr1", 0, 100, "A", "1/2"], ["chr1", 100, 250, "B", "-1/4"]]
+    for ids in (["gene"], ["s0", "start"], ["label", "s1"]):
+        for fmt in ("jtv", "cdt"):
+            out.append({"op": "export_table", "tag": "corpus-V",
+                        "in": {"samples": [{"id": x, "bins": bins, "log2_f": [0.5, -0.25]} for x in ids], "fmt": fmt}})
     return out
 
 
@@ -622,13 +635,10 @@ def to_line(case, impl):
     return line
 
 
-def _exact_products(log2s):
-    for lg in log2s:
-        t = 2.0 ** lg
-        for r in range(0, 7):
-            if Fraction(r * t) != r * Fraction(t):
-                return False
-    return True
+def _exact_product(lg):
+    """r * 2**log2 is computed without rounding for every possible number of reference copies"""
+    t = 2.0 ** lg
+    return all(Fraction(r * t) == r * Fraction(t) for r in range(0, 7))
 
 
 def _close(a, b):
@@ -659,7 +669,8 @@ def judge(case, impl, resp):
     disagree = []
     if op in ("export_bed", "export_vcf"):
         i = case["in"]
-        if not i["has_cn"] and Fraction(resp["slack"]) < Fraction(1, 10 ** 9) and not _exact_products(i["log2_f"]):
+        if not i["has_cn"] and any(Fraction(sl) < Fraction(1, 10 ** 9) and not _exact_product(lg)
+                                   for sl, lg in zip(resp["slack"], i["log2_f"])):
             return [], [], "rounding boundary within 1e-9"
         if op == "export_bed":
             if out != impl:
